@@ -221,3 +221,45 @@ Fixpoint check_history_from (h : heap) (regs : list nat) (steps : list hstep) : 
   end.
 Definition check_history (c : nat * list hstep) : bool :=
   check_history_from (mkHeap [] [] (repeat dleg (fst c)) []) [] (snd c).
+
+(* ---- histories of model operations (statement T03_history in Props/C03.v; not used by check_history).
+   An operation is applicable when its operands are live tensors, the legs of a new tensor exist and
+   the axis permutations index the legs of their tensor.  Operands may coincide or be copies of each other. *)
+Definition live (h : heap) (x : nat) : Prop := (x < length (objs h))%nat.
+Definition perm_ok (h : heap) (x : nat) (perm : list nat) : Prop :=
+  Forall (fun k => (k < length (lg (obj h x)))%nat) perm.
+Definition op_ok (h : heap) (o : op) : Prop :=
+  match o with
+  | ONew _ lgs => Forall (fun i => (i < length (legs h))%nat) lgs
+  | OCopy _ r | OMapWrite r _ | OProject r _ _ _ | OUnary r _ | OScaleAxis r _ => live h r
+  | OBinWrite r b _ | OAdd r b _ => live h r /\ live h b
+  | OMapRebind r _ _ perm | OMeta r _ perm => live h r /\ perm_ok h r perm
+  | OTensordot a b pa pb _ => live h a /\ live h b /\ perm_ok h a pa /\ perm_ok h b pb
+  end.
+Fixpoint run (h : heap) (os : list op) : heap :=
+  match os with [] => h | o :: t => run (fst (exec h o)) t end.
+Fixpoint ops_ok (h : heap) (os : list op) : Prop :=
+  match os with [] => True | o :: t => op_ok h o /\ ops_ok (fst (exec h o)) t end.
+
+(* the operations executed by the replay of a harness history (same recursion as check_history_from), and
+   the applicability of its steps: operand registers exist, the legs of new tensors are among the nlegs initial legs *)
+Fixpoint history_ops (h : heap) (regs : list nat) (steps : list hstep) : list op :=
+  match steps with
+  | [] => []
+  | (k, ra, rb, _) :: t =>
+      let o := to_op h k (nth ra regs 0%nat) (nth rb regs 0%nat) in
+      o :: history_ops (fst (exec h o)) (regs ++ [snd (exec h o)]) t
+  end.
+Definition hstep_ok (nlegs nregs : nat) (s : hstep) : bool :=
+  let '(k, ra, rb, _) := s in
+  match k with
+  | HNew _ lgs => forallb (fun i => Nat.ltb i nlegs) lgs
+  | HBinWrite | HAdd | HTensordot => Nat.ltb ra nregs && Nat.ltb rb nregs
+  | _ => Nat.ltb ra nregs
+  end.
+Fixpoint history_ok (nlegs nregs : nat) (steps : list hstep) : bool :=
+  match steps with [] => true | s :: t => hstep_ok nlegs nregs s && history_ok nlegs (S nregs) t end.
+(* the checker used by harness/c03.py: the history is applicable (so T03_history covers it) and every observed
+   change is allowed by the model *)
+Definition check_history_applicable (c : nat * list hstep) : bool :=
+  history_ok (fst c) 0 (snd c) && check_history c.
